@@ -6,6 +6,7 @@ from prettytable import MARKDOWN, PrettyTable
 from pydantic import Field, validate_call
 
 from primaite.simulator.core import RequestManager, RequestType
+from primaite.simulator.network.hardware.base import Node
 from primaite.simulator.network.hardware.node_operating_state import NodeOperatingState
 from primaite.simulator.network.hardware.nodes.network.router import (
     AccessControlList,
@@ -153,14 +154,15 @@ class Firewall(Router, discriminator="firewall"):
         More information in user guide and docstring for SimComponent._init_request_manager.
         """
         rm = super()._init_request_manager()
+        _node_is_on = Node._NodeIsOnValidator(node=self)
         self._internal_acl_request_manager = RequestManager()
-        rm.add_request("internal", RequestType(func=self._internal_acl_request_manager))
+        rm.add_request("internal", RequestType(func=self._internal_acl_request_manager, validator=_node_is_on))
 
         self._dmz_acl_request_manager = RequestManager()
-        rm.add_request("dmz", RequestType(func=self._dmz_acl_request_manager))
+        rm.add_request("dmz", RequestType(func=self._dmz_acl_request_manager, validator=_node_is_on))
 
         self._external_acl_request_manager = RequestManager()
-        rm.add_request("external", RequestType(func=self._external_acl_request_manager))
+        rm.add_request("external", RequestType(func=self._external_acl_request_manager, validator=_node_is_on))
 
         self._internal_inbound_acl_request_manager = RequestManager()
         self._internal_outbound_acl_request_manager = RequestManager()
